@@ -5,8 +5,9 @@
 EXTENDS ServiceCache
 CONSTANTS Limits, Pages, FeeVals, Groups
 MCTxs == {<<"t", 1>>, <<"t", 2>>}
-VARIABLES s, last, answered, n
-vars == <<s, last, answered, n>>
+VARIABLES s, last, answered, answeredQ, n
+vars == <<s, last, answered, answeredQ, n>>
+UFull == << <<"h", 1>>, <<"h", 2>> >>
 
 Events == [op : {"tx"}, t : Txs, prov : {"ok", "fail"}, ok : BOOLEAN, ret : Txs]
    \cup   [op : {"raw"}, t : Txs, prov : {"ok", "fail"}, ok : BOOLEAN, ret : Txs]
@@ -15,8 +16,12 @@ Events == [op : {"tx"}, t : Txs, prov : {"ok", "fail"}, ok : BOOLEAN, ret : Txs]
    \cup   [op : {"txs"}, a : {"a1"}, full : {<< <<"t", 1>>, <<"t", 2>> >>}, prov : {"ok", "fail"}, ok : BOOLEAN,
            ret : {<< <<"t", 1>>, <<"t", 2>> >>, << <<"t", 1>> >>}]
    \cup   [op : {"fee"}, g : Groups, prov : {"ok", "fail"}, pval : FeeVals, ok : BOOLEAN, ret : FeeVals]
+   \cup   [op : {"utxos"}, a : {"a1", "a2"}, full : {UFull}, prov : {"ok", "fail"}, ok : BOOLEAN, ret : {UFull, << <<"h", 1>> >>}]
+   \cup   [op : {"balance"}, as : {<<"a1">>, <<"a1", "a2">>}, val : {7}, prov : {"ok", "fail"}, ok : BOOLEAN, ret : {7, 0}]
+   \cup   [op : {"isspent"}, t : {"t1"}, n : {0, 1}, truth : {TRUE}, prov : {"ok", "fail"}, ok : BOOLEAN, ret : BOOLEAN]
+   \cup   [op : {"count"}, val : {100}, prov : {"ok", "fail"}, ok : BOOLEAN, ret : {100, 99}]
 
-Init == s = InitState /\ last = [op |-> "none", prov |-> "ok", ok |-> FALSE] /\ answered = {} /\ n = 0
+Init == s = InitState /\ last = [op |-> "none", prov |-> "ok", ok |-> FALSE] /\ answered = {} /\ answeredQ = {} /\ n = 0
 Next == \E e \in Events : /\ Succ(s, e) # {}
                           /\ s' \in Succ(s, e)
                           /\ last' = e
@@ -27,6 +32,15 @@ Next == \E e \in Events : /\ Succ(s, e) # {}
                                                                [] e.op = "block" -> IF e.parse THEN {BlockTx(i) : i \in PageIdx(e.page, e.limit)} ELSE {}
                                                                [] OTHER -> {})
                                          ELSE answered
+                          /\ answeredQ' = IF e.prov = "ok" /\ e.ok
+                                          THEN answeredQ \cup (CASE e.op = "tx" -> {<<"S", TN(e.t), 0>>, <<"S", TN(e.t), 1>>}
+                                                                 [] e.op = "utxos" -> {<<"U", e.a, 0>>, <<"B", e.a, 0>>}
+                                                                 [] e.op = "balance" -> {<<"B", e.as[i], 0>> : i \in 1..Len(e.as)}
+                                                                 [] e.op = "txs" -> {<<"B", e.a, 0>>}
+                                                                 [] e.op = "isspent" -> {<<"S", e.t, e.n>>}
+                                                                 [] e.op = "count" -> {<<"C", "", 0>>}
+                                                                 [] OTHER -> {})
+                                          ELSE answeredQ
 Spec == Init /\ [][Next]_vars
 Bound == n <= 3
 
@@ -35,5 +49,17 @@ NoStoreOnFailure == [][last'.prov = "fail" => s' = s]_vars
 NoFabrication == (last.op \in {"tx", "raw"} /\ last.ok /\ last.prov = "fail") => last.t \in answered
 \* a history served while the providers fail is one that was answered in full before
 HistoryNotFabricated == (last.op = "txs" /\ last.ok /\ last.prov = "fail") => (last.ret = last.full /\ last.a \in s.addrs)
+\* the four mutable-looking queries: what the cache layer knows was answered by a provider, and what is served while the
+\* providers fail was answered before and is the truth
+QueriesFaithful == /\ \A a \in s.utx : <<"U", a, 0>> \in answeredQ
+                   /\ \A a \in s.bal : <<"B", a, 0>> \in answeredQ
+                   /\ \A o \in s.spent : <<"S", o[1], o[2]>> \in answeredQ
+                   /\ s.count => <<"C", "", 0>> \in answeredQ
+QueriesNotFabricated == (last.ok /\ last.prov = "fail") =>
+    CASE last.op = "utxos" -> last.ret = last.full /\ <<"U", last.a, 0>> \in answeredQ
+      [] last.op = "balance" -> last.ret = last.val /\ \A i \in 1..Len(last.as) : <<"B", last.as[i], 0>> \in answeredQ
+      [] last.op = "isspent" -> last.ret = last.truth /\ <<"S", last.t, last.n>> \in answeredQ
+      [] last.op = "count" -> last.ret = last.val /\ <<"C", "", 0>> \in answeredQ
+      [] OTHER -> TRUE
 ValueIsRequested == (last.op \in {"tx", "raw"} /\ last.ok) => last.ret = last.t
 =============================================================================
